@@ -1,5 +1,5 @@
 """C18 — version compatibility gate."""
-import re
+import os, re, subprocess
 from vlib import core, gen
 
 LEVEL = "proof"
@@ -52,6 +52,49 @@ def expected_accept(b, v):
     if pb[0] == 0:
         return pv[0] == 0 and pv[1] == pb[1]
     return pv[0] == pb[0] and pv[1] <= pb[1]
+
+
+LINKER_VERSIONS = ["v1.4.2+build5", "v0.4.1", "1.4.2", "dev", "v1.4.2-rc.1+build5", "v0.4.1+20240101", "v2.0.0-alpha", "", "v1.04.2"]
+E2E_CONFS = [None, "1.4.0", "1.5.0", "2.0.0", "0.4.0", "0.5.0", "1.10.0", "1.4.9-x+y"]
+
+
+def normalize_linker(l):
+    """main.go as documented: one leading v is dropped iff the rest is a semantic version"""
+    return l[1:] if l.startswith("v") and py_parse(l[1:]) is not None else l
+
+
+def e2e(ctx):
+    """the whole path: the CLI linked with -X main.version=<linker version>, run on configurations declaring V"""
+    d = ctx.scratch()
+    violations, corr_fail, n = [], [], 0
+    linkers = LINKER_VERSIONS[:4] if ctx.quick else LINKER_VERSIONS
+    mreqs = []
+    for k, l in enumerate(linkers):
+        exe = os.path.join(d, "g%d" % k)
+        p = subprocess.run(["go", "build", "-ldflags", "-X main.version=" + l, "-o", exe, "."], cwd=core.REPO, env=core.GOENV,
+                           stdout=subprocess.PIPE, stderr=subprocess.STDOUT, text=True)
+        if p.returncode != 0:
+            violations.append({"sig": "e2e-build", "what": "CLI does not link with -X main.version=%s: %s" % (l, p.stdout[-300:])})
+            continue
+        b = normalize_linker(l)
+        for j, v in enumerate(E2E_CONFS):
+            f = os.path.join(d, "c%d_%d.yaml" % (k, j))
+            open(f, "w").write(("version: %s\n" % gen.yaml_str(v) if v is not None else "") + "parameters: {p: 1}\n")
+            out = os.path.join(d, "o%d_%d.go" % (k, j))
+            q = subprocess.run([exe, "build", "-i", f, "-o", out], cwd=d, env=dict(os.environ, NO_COLOR="1"), stdout=subprocess.PIPE, stderr=subprocess.STDOUT, text=True, timeout=60)
+            acc = q.returncode == 0
+            want = True if v is None else expected_accept(b, v)
+            n += 1
+            if acc != want:
+                violations.append({"sig": "gate-e2e", "what": "CLI linked with version %r, configuration version %r: %s but the documented rule (build %r) says %s" % (
+                    l, v, "accepted" if acc else "rejected", b, "accept" if want else "reject"), "input": {"linker": l, "version": v}, "observed": q.stdout[-400:]})
+            mreqs.append(({"op": "linkerVersion", "linker": l, "given": v}, acc))
+    if ctx.have_model and mreqs:
+        rm = ctx.model.ask_many([m for m, _ in mreqs])
+        for (m, acc), r in zip(mreqs, rm):
+            if (not r.get("errs")) != acc and len(corr_fail) < 10:
+                corr_fail.append({"op": "linkerVersion", "req": m, "impl": {"accepted": acc}, "model": r})
+    return violations, corr_fail, n
 
 
 def run(ctx):
@@ -112,7 +155,11 @@ def run(ctx):
                 same = ("decodeErr" in a) == ("err" in r)
             if not same and len(corr_fail) < 10:
                 corr_fail.append({"op": m["op"], "req": m, "impl": a, "model": r})
-    return {"evaluations": len(reqs), "distinct_nontrivial": len(nontriv),
+    ev, ec, en = e2e(ctx)
+    violations += ev
+    corr_fail += ec
+    dist["e2e_linked_binaries_x_configs"] = en
+    return {"evaluations": len(reqs) + en, "distinct_nontrivial": len(nontriv),
             "rule": "grid majors {0,1,2,3,10} x minors {0,1,2,3,9,10,12,20,100} x patches x {release, prerelease, +build, both} for build and configuration, plus non-semver builds, absent version, malformed version strings and non-string YAML nodes; non-trivial = distinct ((B.major,B.minor),(V.major,V.minor)) pairs with both valid",
             "samples": [reqs[0], reqs[len(reqs) // 2], reqs[-1]], "distribution": dist, "violations": violations, "corr_fail": corr_fail,
             "exhaustive": not ctx.quick}
@@ -120,6 +167,9 @@ def run(ctx):
 
 def replay(ctx, payload):
     i = payload["input"]
+    if "linker" in i:
+        vs, _, n = e2e(ctx)
+        return {"evaluations": n, "distinct_nontrivial": n, "violations": vs, "samples": [i]}
     y = "version: %s\n" % gen.yaml_str(i["version"]) if i.get("version") is not None else "parameters: {}\n"
     a = ctx.impl.ask({"op": "version", "build": i["build"], "yaml": y})
     v = []
